@@ -34,6 +34,9 @@ var specimens = []specimen{
 	{"str-cjk", "中文字", []ruleV{{"to=3~3", false}, {"eq=3", false}, {"gt=3", true}, {"le=2", true}, {"prefix=中", false}, {"eq=9", true}}},
 	{"str-mail", "a@b.cn", []ruleV{{"email", false}, {"phone", true}, {"include=(@)", false}, {"lt=6", true}}},
 	{"str-blanks", " ab ", []ruleV{{"eq=4", false}, {"eq=2", true}, {"to=4~4", false}, {"to=1~3", true}, {"le=3", true}, {"ge=4", false}, {"lt=4", true}, {"noeq=4", true}}},
+	{"str-plus", "a+b", []ruleV{{"eq=3", false}, {"in=(a+b)", false}, {"in=(a b)", true}, {"le=2", true}, {"include=(+)", false}}},
+	{"str-pct", "%41x", []ruleV{{"eq=4", false}, {"eq=2", true}, {"prefix=%", false}, {"in=(Ax)", true}, {"ge=4", false}}},
+	{"str-emoji", "a😀b", []ruleV{{"eq=3", false}, {"eq=6", true}, {"le=2", true}, {"to=3~3", false}, {"gt=3", true}}},
 	{"str-tab", "ab\t", []ruleV{{"eq=3", false}, {"le=2", true}, {"gt=2", false}}},
 	{"f32-0.1", float32(0.1), []ruleV{{"in=(0.1)", false}, {"in=(0.2/0.3)", true}, {"le=1", false}, {"ge=1", true}, {"float", false}, {"lt=0", true}}},
 	{"int-7", 7, []ruleV{{"ge=5", false}, {"ge=9", true}, {"le=9", false}, {"le=5", true}, {"gt=7", true}, {"lt=7", true}, {"lt=8", false},
@@ -237,7 +240,20 @@ func (g *wgen) buildStruct(depth int, structName string) built {
 				g.feat["nested-value"] = true
 			case 2, 3: // pointer(s) to struct, maybe nil
 				levels := g.r.Range(1, 3)
-				if g.r.Chance(25) {
+				if levels >= 2 && g.r.Chance(45) {
+					// the outer pointer is set, an inner level is nil: a supplied (non-zero) value with nothing behind it,
+					// skipped silently under exist and under required alike
+					b := g.buildStruct(depth-1, childName)
+					t := b.val.Type()
+					for k := 0; k < levels-1; k++ {
+						t = reflect.PtrTo(t)
+					}
+					inner := reflect.Zero(t) // a nil pointer with levels-1 stars
+					p := reflect.New(t)
+					p.Elem().Set(inner)
+					v = p
+					g.feat["inner-nil-pointer"] = true
+				} else if g.r.Chance(25) {
 					b := g.buildStruct(depth-1, childName)
 					t := b.val.Type()
 					for k := 0; k < levels; k++ {
@@ -433,7 +449,7 @@ func galExps(es []expE) string {
 func (g *wgen) featureCell() string {
 	var fs []string
 	for _, k := range []string{"violated", "satisfied", "zero-value", "required", "unknown-rule", "empty-item", "repeated-rule", "time-field",
-		"nested-value", "nil-pointer", "pointer-levels-1", "pointer-levels-2", "pointer-levels-3", "slice-of-structs", "array-of-structs", "map-of-structs",
+		"nested-value", "nil-pointer", "inner-nil-pointer", "pointer-levels-1", "pointer-levels-2", "pointer-levels-3", "slice-of-structs", "array-of-structs", "map-of-structs",
 		"nil-element", "decoy-untagged", "decoy-other-rule", "required-on-empty-container"} {
 		if g.feat[k] {
 			fs = append(fs, k)
